@@ -110,6 +110,10 @@ def cases(draw, stratum=None):
         # the process runs with warnings turned into errors (python -W error / pytest -W error)
         "warn_error": draw(st.integers(0, 3)) == 0,
         "compression": draw(st.sampled_from([None, 0, 4])),
+        # history: earlier in the same process a write-once save onto ANOTHER, existing target was refused
+        # (seeded change C08-12: a class-level list of unfinished targets that a refused save never leaves, and that
+        # the failure clean-up of a later save removes wholesale)
+        "refused_before": draw(st.integers(0, 2)) == 0,
     }
     return case
 
@@ -321,6 +325,9 @@ class Scenario:
                 self.old.save(os.path.join(self.template, self.given, "store"), mode="w", store="dir")
             elif store == "dir":
                 self.old.save(os.path.join(self.template, "t.zip"), mode="w", store="zip")
+        self.protected = "protected_earlier.zip" if store == "zip" else "protected_earlier"
+        with contextlib.redirect_stdout(io.StringIO()):
+            self.old.save(os.path.join(self.template, self.protected), mode="w", store=store)
         self.pre_exists = os.path.lexists(tp)
         self.pre_target_snap = snapshot(self.template)  # whole tree incl. target
         self.pre_other_snap = snapshot(self.template, exclude=self.target)
@@ -344,6 +351,14 @@ class Scenario:
             raised = None
             import warnings
 
+            if case.get("refused_before"):
+                try:
+                    with contextlib.redirect_stdout(io.StringIO()):
+                        self.x.save(os.path.join(work, self.protected), mode="w", store=case["store"])
+                except FileExistsError:
+                    ctx.count("history:refused_write_once_save_before")
+                else:
+                    raise core.Violation("mode='w' on an existing target (%s) did not raise FileExistsError" % self.protected, kcase)
             with faults.installed(), warnings.catch_warnings():
                 warnings.simplefilter("error" if case.get("warn_error") else "ignore")
                 try:
